@@ -838,6 +838,9 @@ func checkStanza(c *core.Case, v Val) {
 		}
 	}
 
+	checkHelperPayloads(c, v, s, typ)
+	checkEchoedError(c, v, s, typ)
+
 	// --- Error: type error, addresses swapped, the error unchanged
 	if v.ErrVal != nil {
 		e := v.ErrVal.stanzaError()
@@ -1269,6 +1272,7 @@ func Prop() *core.Prop {
 		"interleaved_three_readers", "interleaved_partial_then_build", "interleaved_encodexml_nested",
 		"interleaved_values_beyond_4k", "interleaved_outputs_agree",
 		"attribute_sets_compared", "composite_attribute_sets_agree_two_attr_namespaces",
+		"echoed_payload_error_checks", "helper_payload_variant_checks", "result_payload_starting_with_non_element",
 		"cross_decoded_outputs", "cross_decoded_outputs_with_language", "qualified_attribute_checks", "snapshot_decoded_copy_kept",
 		"concurrent_decode_scenarios", "concurrent_decodes",
 		"snapshot_checks", "snapshot_text_map_mutated", "snapshot_reused_decode_target", "snapshot_stanza_helpers", "snapshot_stream_error"}
@@ -1281,7 +1285,7 @@ func Prop() *core.Prop {
 		ID:    "C13",
 		Level: core.Exploration,
 		Race:  true,
-		Rule:  "values are PRNG-drawn IQ/Message/Presence (every defined type constant, XMLName namespace none/client/server, ids and language tags from pools of empty, ASCII, XML-special, non-ASCII and control-adjacent text, addresses that survive Parse(String()) incl. resourceparts with <>&'\"), stanza.Error (every type x defined condition, by, 0-3 texts in distinct languages incl. empty data, optional application condition) and stream.Error (every defined condition, see-other-host content, 0-3 texts with repeated languages, optional application error). Each value is encoded by xml.Marshal, TokenReader/WriteXML/Wrap, internal/marshal.TokenReader and internal/marshal.EncodeXML; each output must parse strictly (W), decode to the same value as xml.Marshal's (A) and to a value equivalent to the original (R); Wrap/Result/Error are checked on the token level (frame, start element, payload tokens unchanged, to/from swapped), UnmarshalError/UnmarshalIQError read the Error helpers back, New*(v.StartElement()) must equal v. The internal/marshal outputs must also carry exactly the attributes of the xml.Marshal output after parsing (the composite payload has a plain attribute followed by one in a namespace of its own, another plain one, one in a second attribute namespace, and children whose namespaced attribute comes first), and no namespace declaration may survive as an ordinary attribute. Law D: the start element of every path's output is also parsed with New{IQ,Message,Presence} and must give the original value (the language must travel as xml:lang); New* must ignore namespace-qualified attributes named type/id/to/from/lang placed before and after the real ones. One case in 40 decodes four stanzas with different addresses on four goroutines at once (xml.Unmarshal and New*), every result compared with the sequential reference, under the race detector. Snapshot law (S): for every TokenReader/Wrap/Error constructor of the core types the reader is built, then everything the caller can still reach is changed (entries of a stanza error's Text map changed, emptied, deleted and added; elements of a stream error's Text slice; the fields of the variable; or the variable is reused as a decode target, which fills its Text map in place), then the reader is consumed: its tokens must equal those of a reader built from a deep copy and consumed at once. For half of the stanza values the interleaved-readers law (I) is also run on the internal/marshal paths: the marshal.TokenReader readers of two or three different values (bare stanzas and stanzas with payload, a third padded beyond 4 KiB) are built first and consumed token by token in PRNG order, or one is partly consumed, another built, then both finished, or marshal.EncodeXML of one value is interrupted after its k-th token by a complete EncodeXML of another into a second encoder; every output must still decode to what xml.Marshal of its own value decodes to. 5% of values carry characters XML cannot represent and are judged for W and A only. distinct = (kind, namespace, type, class of every text field, payload count).",
+		Rule:  "values are PRNG-drawn IQ/Message/Presence (every defined type constant, XMLName namespace none/client/server, ids and language tags from pools of empty, ASCII, XML-special, non-ASCII and control-adjacent text, addresses that survive Parse(String()) incl. resourceparts with <>&'\"), stanza.Error (every type x defined condition, by, 0-3 texts in distinct languages incl. empty data, optional application condition) and stream.Error (every defined condition, see-other-host content, 0-3 texts with repeated languages, optional application error). Each value is encoded by xml.Marshal, TokenReader/WriteXML/Wrap, internal/marshal.TokenReader and internal/marshal.EncodeXML; each output must parse strictly (W), decode to the same value as xml.Marshal's (A) and to a value equivalent to the original (R); Wrap/Result/Error are checked on the token level (frame, start element, payload tokens unchanged, to/from swapped), UnmarshalError/UnmarshalIQError read the Error helpers back, New*(v.StartElement()) must equal v. The internal/marshal outputs must also carry exactly the attributes of the xml.Marshal output after parsing (the composite payload has a plain attribute followed by one in a namespace of its own, another plain one, one in a second attribute namespace, and children whose namespaced attribute comes first), and no namespace declaration may survive as an ordinary attribute. Error stanzas that echo a payload containing elements named error at depth 1 and 2, in foreign and stanza namespaces, before and/or after the real <error/>, are read with UnmarshalError, UnmarshalIQError and a field tagged xml:\"error\": all must give the direct child. Every Wrap (and IQ.Result) is also fed payload readers that are nil, empty, start with white space / a comment / text, end with text, or hold several elements: Wrap must pass them unchanged, Result must contain a prefix of the payload reaching at least the end of its first element. Law D: the start element of every path's output is also parsed with New{IQ,Message,Presence} and must give the original value (the language must travel as xml:lang); New* must ignore namespace-qualified attributes named type/id/to/from/lang placed before and after the real ones. One case in 40 decodes four stanzas with different addresses on four goroutines at once (xml.Unmarshal and New*), every result compared with the sequential reference, under the race detector. Snapshot law (S): for every TokenReader/Wrap/Error constructor of the core types the reader is built, then everything the caller can still reach is changed (entries of a stanza error's Text map changed, emptied, deleted and added; elements of a stream error's Text slice; the fields of the variable; or the variable is reused as a decode target, which fills its Text map in place), then the reader is consumed: its tokens must equal those of a reader built from a deep copy and consumed at once. For half of the stanza values the interleaved-readers law (I) is also run on the internal/marshal paths: the marshal.TokenReader readers of two or three different values (bare stanzas and stanzas with payload, a third padded beyond 4 KiB) are built first and consumed token by token in PRNG order, or one is partly consumed, another built, then both finished, or marshal.EncodeXML of one value is interrupted after its k-th token by a complete EncodeXML of another into a second encoder; every output must still decode to what xml.Marshal of its own value decodes to. 5% of values carry characters XML cannot represent and are judged for W and A only. distinct = (kind, namespace, type, class of every text field, payload count).",
 		Assumptions: []string{
 			"equivalence ignores XMLName as filled in by decoding, nil versus empty text collections, and stanza-error text entries with empty data (documented as omitted by the encoder)",
 			"encoding/xml ignores the value of an XMLName field when the struct tag names the element, so xml.Marshal of a stanza cannot carry XMLName.Space; this is counted (xmlname_space_not_carried_by_struct_tags), not judged; the namespace is judged on the Wrap/StartElement path",
